@@ -282,4 +282,4 @@ TRUSTED = ["pdv/specs/operators.py stencils (tied to the kernels by the (K) obli
 ASSUMPTIONS = ["finite telescoping sums / interchange of finite sums: proved in Lean 4 + Mathlib (lean/Telescoping.lean, thorough tier); instantiating its hypotheses with the per-cell identities the solver proves for an arbitrary cell is the remaining meta-level step",
                "ghost relations of zero-derivative / zero-value / periodic conditions as proved in C02",
                "GridBase.integrate = sum(data * outer product of cell_volume_data) (NumPy sum/outer trusted)", "round-off ('to round-off' in the statement)"]
-NOT_COVERED = ["non-conservative spherical operators (the statement says conservative)", "9-point Laplacian (corner_weight != 0): kernel, corner-point setter and diagonal flux form are proved; corner points next to boundaries with non-zero derivative or value conditions do not conserve anything (not claimed by the statement)", "MaterialConservationTracker itself"]
+NOT_COVERED = ["non-conservative spherical operators (the statement says conservative)", "one-sided divergences (method='forward' / 'backward'): their boundary flux does not vanish under zero-value conditions (reported by a round-3 agent; non-default option, not claimed)", "9-point Laplacian (corner_weight != 0): kernel, corner-point setter and diagonal flux form are proved; corner points next to boundaries with non-zero derivative or value conditions do not conserve anything (not claimed by the statement)", "MaterialConservationTracker itself"]
